@@ -24,10 +24,13 @@ Protocol (`c10 kind=<k> …`; every value is a decimal integer or a comma separa
       -> `ok= n= term=`
   kind=hitmiss shape=<ints> bshape=<ints> [margin=<0|1>, default 1; 0 removes the margin test]
       -> `ok= n= term=`
-  kind=dt      n= pop=<bits, one per do-while test; missing bits = 0> [guard=<0|1>, default 1]
-      -> `ok= n= term=`; first loop of `dist_transform`: bit 1 = "`s > z[k]` is false, pop".
-         With `guard=1` the test against z[0] = -inf always succeeds (s is not NaN), whatever the bit.
-         The second loop is run with the worst-case oracle (`z[k+1] < q` true as long as k < kmax).
+  kind=dt      n= [pop=<ints>] [adv=<ints>, default 1] [guard=<0|1>, default 1]
+      -> `ok= n= term=`; `dist_transform` on a line of n elements. The float tests are oracles that
+         are functions of (q,k): `s > z[k]` is FALSE (pop, --k) iff pop[(q+k) % len(pop)] != 0
+         (empty list: never pop; `pop=1`: pop as long as allowed); `z[k+1] < q` is TRUE (++k) iff
+         adv[(q+k) % len(adv)] != 0. With `guard=1` the two facts the kernel relies on hold:
+         the test against z[0] = -inf succeeds (s is not NaN) and z[kmax+1] = +inf is never < q.
+         `guard=0` drops both (NaN input): `term=0` when k reaches -1.
   kind=bbox    ndim= maxlabel= label=
       -> `ok= n=`; `bbox_labeled`: extrema[2*ndim*label + 2j (+1)], allocation 2*ndim*(maxlabel+1).
   kind=foldl   maxi= label=
@@ -208,6 +211,84 @@ def majorityDone (rows cols n : Int) : Bool :=
   iterNeDone 0 (rows - n) (rows.toNat + 1) && iterNeDone 0 (cols - n) (cols.toNat + 1) &&
     iterNeDone 0 n (rows.toNat + 1) && iterNeDone 0 n (cols.toNat + 1)
 
+/-! ## B6 — `dist_transform` (`_distance.cpp`): `z[n+1]`, `v[n]`, `f[n]`, `Df[n]` -/
+
+/-- the do-while of the first loop at `(q, k)`; `cmp q k` abstracts the float test `s > z[k]`
+    (`true` = break). `vs` is the content of `v[0..k]`, top first. Returns the accesses and, unless
+    `k` would become `-1` (then `v[-1]` is recorded and the model stops), the `k` at `break`. -/
+def dtPop (cmp : Nat → Nat → Bool) (n q : Nat) : Nat → List Int → List Acc × Option (Nat × List Int)
+  | 0, vs =>
+    let here := [Acc.mk 0 n, Acc.mk 0 (n + 1), Acc.mk q n, Acc.mk (vs.headD 0) n]
+    if cmp q 0 then (here, some (0, vs)) else (here ++ [Acc.mk (-1) n], none)
+  | k + 1, vs =>
+    let here := [Acc.mk (k + 1 : Nat) n, Acc.mk (k + 1 : Nat) (n + 1), Acc.mk q n, Acc.mk (vs.headD 0) n]
+    if cmp q (k + 1) then (here, some (k + 1, vs))
+    else let r := dtPop cmp n q k vs.tail; (here ++ r.1, r.2)
+
+/-- `cnt` iterations of `for (q = 1; q != n; ++q)` starting at `q` with state `(k, v[0..k])`:
+    after the do-while `++k; v[k] = q; z[k] = s; z[k+1] = inf;`. -/
+def dtFirst (cmp : Nat → Nat → Bool) (n : Nat) : Nat → Nat → Nat → List Int → List Acc × Option (Nat × List Int)
+  | 0, _, k, vs => ([], some (k, vs))
+  | c + 1, q, k, vs =>
+    match dtPop cmp n q k vs with
+    | (a, none) => (a, none)
+    | (a, some (kb, vs')) =>
+      let k' := kb + 1
+      let w := [Acc.mk (k' : Nat) n, Acc.mk (k' : Nat) (n + 1), Acc.mk ((k' : Nat) + 1) (n + 1)]
+      let r := dtFirst cmp n c (q + 1) k' ((q : Int) :: vs')
+      (a ++ w ++ r.1, r.2)
+
+/-- `while (z[k+1] < q) ++k;` with `lt2 q k` abstracting the float test; budget `fuel`. -/
+def dtAdvance (lt2 : Nat → Nat → Bool) (n q : Nat) : Nat → Nat → List Acc × Nat
+  | 0, k => ([], k)
+  | f + 1, k =>
+    let a := Acc.mk ((k : Int) + 1) (n + 1)
+    if lt2 q k then let r := dtAdvance lt2 n q f (k + 1); (a :: r.1, r.2) else ([a], k)
+
+/-- `cnt` iterations of the second loop starting at `q`; `v` is the final content of `v[0..kmax]`
+    (bottom first). Accesses `z[k+1]`, `v[k]`, `Df[q]`, `f[v[k]]`. -/
+def dtSecond (lt2 : Nat → Nat → Bool) (n : Nat) (v : List Int) : Nat → Nat → Nat → List Acc
+  | 0, _, _ => []
+  | c + 1, q, k =>
+    let r := dtAdvance lt2 n q (n + 2) k
+    r.1 ++ [Acc.mk (r.2 : Nat) n, Acc.mk q n, Acc.mk (v.getD r.2 0) n] ++ dtSecond lt2 n v c (q + 1) r.2
+
+/-- the largest `k` the first loop leaves behind (`z[kmax+1] = inf`) -/
+def dtKmax (cmp : Nat → Nat → Bool) (n : Nat) : Nat :=
+  match (dtFirst cmp n (n - 1) 1 0 [0]).2 with
+  | some (k, _) => k
+  | none => 0
+
+def dtAccesses (cmp lt2 : Nat → Nat → Bool) (n : Nat) : List Acc :=
+  let init := [Acc.mk 0 n, Acc.mk 0 (n + 1), Acc.mk 1 (n + 1)]
+  let r := dtFirst cmp n (n - 1) 1 0 [0]
+  init ++ r.1 ++
+    match r.2 with
+    | none => []
+    | some (_, vs) => dtSecond lt2 n vs.reverse n 0 0
+
+/-! ## B7 — label-indexed tables -/
+
+/-- `bbox_labeled`: `base = extrema + (*pos) * 2 * nd; base[2*j], base[2*j+1]`, `j < nd`;
+    `labeled.bbox` allocates `f.ndim * 2 * (n+1)` with `n = f.max()`. -/
+def bboxAccesses (nd maxlabel label : Int) : List Acc :=
+  (rangeI nd).flatMap fun j =>
+    [Acc.mk (label * 2 * nd + 2 * j) (nd * 2 * (maxlabel + 1)),
+     Acc.mk (label * 2 * nd + (2 * j + 1)) (nd * 2 * (maxlabel + 1))]
+
+/-- `labeled_foldl`: `if ((*literator >= 0) && (*literator < maxlabel)) result[*literator] = …` -/
+def foldlAccesses (maxi label : Int) : List Acc :=
+  if label ≥ 0 ∧ label < maxi then [Acc.mk label maxi] else []
+
+/-- `center_of_mass` with labels at flat position `i`: `labels[i]` (buffer of `lsize` elements),
+    `totals[label]` (`max_label+1`), `centers[label*nd + j]` (`nd*(max_label+1)`), `j < nd`. -/
+def comAccessesAt (nd maxlabel label lsize i : Int) : List Acc :=
+  [Acc.mk i lsize, Acc.mk label (maxlabel + 1)] ++
+    (rangeI nd).map fun j => Acc.mk (label * nd + j) (nd * (maxlabel + 1))
+
+def comAccesses (nd maxlabel label size lsize : Int) : List Acc :=
+  (rangeI size).flatMap fun i => comAccessesAt nd maxlabel label lsize i
+
 /-! ## protocol -/
 
 def b2s (b : Bool) : String := if b then "1" else "0"
@@ -239,6 +320,22 @@ def handle (a : Args) : String :=
   | "majority" =>
     report (majorityAccesses (a.int "rows") (a.int "cols") (a.int "n"))
       (majorityDone (a.int "rows") (a.int "cols") (a.int "n"))
+  | "dt" =>
+    let n := a.nat "n"
+    let pop := a.ints "pop"
+    let adv := if a.has "adv" then a.ints "adv" else [1]
+    let guard := a.int "guard" 1 ≠ 0
+    let cmp : Nat → Nat → Bool := fun q k =>
+      (guard && k == 0) || pop.getD ((q + k) % pop.length) 0 == 0
+    let kmax := dtKmax cmp n
+    let lt2 : Nat → Nat → Bool := fun q k =>
+      (!guard || k < kmax) && adv.getD ((q + k) % adv.length) 0 != 0
+    let l := dtAccesses cmp lt2 n
+    report l ((dtFirst cmp n (n - 1) 1 0 [0]).2.isSome)
+  | "bbox" => report (bboxAccesses (a.int "ndim") (a.int "maxlabel") (a.int "label"))
+  | "foldl" => report (foldlAccesses (a.int "maxi") (a.int "label"))
+  | "com" =>
+    report (comAccesses (a.int "ndim") (a.int "maxlabel") (a.int "label") (a.int "size") (a.int "lsize"))
   | k => s!"error=unknown-kind-{k}"
 
 end Mahotas.C10
